@@ -86,11 +86,20 @@ class Interp:
         # (*self).field
         if l == self.self_local and len(proj) == 2 and proj[0] == "*" and isinstance(proj[1], dict) and "f" in proj[1]:
             return ("f", proj[1]["n"])
+        # (*self) itself (re-borrowed for a helper that takes &mut self and is analysed in place)
+        if proj == ["*"] and l == self.self_local:
+            return ("self",)
         # (*ref_local)  where ref_local holds ('ref', key)
         if proj == ["*"]:
             v = st.get(("l", l))
             if v and v[0] == "ref":
                 return v[1]
+            return None
+        # (*r).field where r is a re-borrow of self
+        if len(proj) == 2 and proj[0] == "*" and isinstance(proj[1], dict) and "f" in proj[1]:
+            v = st.get(("l", l))
+            if v and v[0] == "ref" and v[1] == ("self",):
+                return ("f", proj[1]["n"])
             return None
         # tuple field of a local
         if len(proj) == 1 and isinstance(proj[0], dict) and "f" in proj[0]:
